@@ -280,6 +280,14 @@ Definition dt_replaced_elements (d : dtdim) (e : edict) : res edict :=
     end
   end.
 
+(* ---- the response's dimension dict (shimmed_dimension_dict) ------------------------------ *)
+(* every element of an array dimension gains a "subvar_alias" field (in the CALLER's response);
+   _build_element_id then uses it as the element id.  An element = (item, current subvar_alias) *)
+Definition shim_dim_dict (els : list (item * option ident)) : list (item * option ident) :=
+  map (fun p => (fst p, Some (alias_of (fst p)))) els.
+Definition build_element_id (p : item * option ident) : ident :=
+  match snd p with Some a => a | None => i_eid (fst p) end.
+
 (* ---- rendering ---------------------------------------------------------------------- *)
 Local Open Scope Z_scope.
 Definition r_exn (e : exn) : list Z := match e with TypeErr => [1] | ValueErr => [2] end.
